@@ -82,7 +82,7 @@ func (cw *codeWorld) startAuth(ch *kernel.Chooser, client string) string {
 	}
 	ap := world.AuthParams{Client: client, RedirectURI: p.redirect, ResponseType: "code", Scope: strings.Join(p.scopes, " "), State: p.state, Nonce: p.nonce}
 	if p.method != "" {
-		p.verifier = fmt.Sprintf("verifier-%d-0123456789abcdefghijklmnopqrstuvwxyz-ABCDEF", cw.n)
+		p.verifier = fmt.Sprintf("verifier-%d.0123456789_abcdefghijklmnopqrstuvwxyz~ABCDEF", cw.n)
 		ap.ChallengeMethod = p.method
 		if p.method == "S256" {
 			ap.Challenge = world.S256(p.verifier)
@@ -504,6 +504,13 @@ func RunC04(t *testing.T, spec kernel.Spec) *kernel.Outcome {
 		if err != nil {
 			o.Infra = "world: " + err.Error()
 			return
+		}
+		if tape.Sub("cfg-empty-challenge").Bool(1, 6) {
+			// a storage that answers "no challenge" with an empty value instead of nil (confidential clients without PKCE
+			// cannot redeem at such a storage's provider - an interoperability limit that costs honest redemptions, not a
+			// violation; public clients must be refused all the same)
+			w.Store.EmptyChallenge = true
+			o.Probe("storages-that-answer-an-empty-challenge-value")
 		}
 		cw := &codeWorld{w: w, o: o, prop: "C04", faulty: tape.Sub("cfg2").Bool(1, 2)}
 		cw.browsers = []*world.Browser{w.Net.NewBrowser("b1"), w.Net.NewBrowser("b2")}
